@@ -148,7 +148,8 @@ pub enum HKind {
 
 #[derive(Clone, Debug, Serialize, Deserialize, PartialEq, Eq, Hash)]
 pub enum EvKind {
-    Inv { who: Who, k: u32, op: OpTag, a: Option<u32>, mid: Option<u64>, ms: Option<u64>, via: String, budget: bool },
+    Inv { who: Who, k: u32, op: OpTag, a: Option<u32>, mid: Option<u64>, /// timeout in microseconds (u64::MAX = Duration::MAX)
+        us: Option<u64>, via: String, budget: bool },
     Ret { who: Who, k: u32, res: Res, polls: u32 },
     Cancelled { who: Who, k: u32, polls: u32 },
     /// synchronous handle-table operation (single event): result strong/weak/none after the op
